@@ -121,7 +121,107 @@ def guard_tail(tree, only=None):
     return changed
 
 
-KINDS = {"rename": rename_locals, "flipif": flip_if, "flipexp": flip_ifexp, "guard": guard_tail}
+def hoist_returns(tree, only=None):
+    """``return <call or operation>``  ->  ``result_zq = <...>`` then ``return result_zq``."""
+    changed = 0
+    for f in [n for n in ast.walk(tree) if isinstance(n, (ast.FunctionDef, ast.AsyncFunctionDef)) and (not only or n.name == only)]:
+        if any(isinstance(n, (ast.Yield, ast.YieldFrom)) for n in ast.walk(f)):
+            continue
+
+        def block(stmts):
+            nonlocal changed
+            out = []
+            for st in stmts:
+                for fld in ("body", "orelse", "finalbody"):
+                    blk = getattr(st, fld, None)
+                    if isinstance(blk, list) and blk and isinstance(blk[0], ast.stmt) and not isinstance(st, (ast.FunctionDef, ast.AsyncFunctionDef, ast.ClassDef)):
+                        setattr(st, fld, block(blk))
+                for h in getattr(st, "handlers", []) or []:
+                    h.body = block(h.body)
+                if isinstance(st, ast.Return) and isinstance(st.value, (ast.Call, ast.BinOp, ast.Subscript, ast.JoinedStr, ast.IfExp, ast.Compare)):
+                    out.append(ast.Assign(targets=[ast.Name(id="result_zq", ctx=ast.Store())], value=st.value))
+                    out.append(ast.Return(value=ast.Name(id="result_zq", ctx=ast.Load())))
+                    changed += 1
+                else:
+                    out.append(st)
+            return out
+
+        f.body = block(f.body)
+    return changed
+
+
+def name_constants(tree, only=None):
+    """Integer literals >= 2 inside functions become new module-level constants."""
+    consts = {}
+    changed = 0
+
+    class T(ast.NodeTransformer):
+        def visit_Constant(self, node):
+            nonlocal changed
+            if isinstance(node.value, int) and not isinstance(node.value, bool) and node.value >= 2:
+                nm = f"_K_ZQ_{node.value}"
+                consts[nm] = node.value
+                changed += 1
+                return ast.copy_location(ast.Name(id=nm, ctx=ast.Load()), node)
+            return node
+
+        def visit_JoinedStr(self, node):
+            return node  # format specs stay literal
+
+    for f in [n for n in ast.walk(tree) if isinstance(n, (ast.FunctionDef, ast.AsyncFunctionDef)) and (not only or n.name == only)]:
+        for i, b in enumerate(f.body):
+            f.body[i] = T().visit(b)
+    # after the imports / module docstring
+    pos = 0
+    for i, n in enumerate(tree.body):
+        if isinstance(n, (ast.Import, ast.ImportFrom)) or (isinstance(n, ast.Expr) and isinstance(n.value, ast.Constant)):
+            pos = i + 1
+    for nm, v in sorted(consts.items()):
+        tree.body.insert(pos, ast.Assign(targets=[ast.Name(id=nm, ctx=ast.Store())], value=ast.Constant(v)))
+    return changed
+
+
+def drop_else_after_return(tree, only=None):
+    """``if c: ...return/raise`` + ``else: B``  ->  ``if c: ...`` followed by B."""
+    changed = 0
+
+    def terminates(stmts):
+        if not stmts:
+            return False
+        last = stmts[-1]
+        if isinstance(last, (ast.Return, ast.Raise, ast.Continue, ast.Break)):
+            return True
+        if isinstance(last, ast.If) and last.orelse:
+            return terminates(last.body) and terminates(last.orelse)
+        return False
+
+    def block(stmts):
+        nonlocal changed
+        out = []
+        for st in stmts:
+            for fld in ("body", "orelse", "finalbody"):
+                blk = getattr(st, fld, None)
+                if isinstance(blk, list) and blk and isinstance(blk[0], ast.stmt) and not isinstance(st, (ast.FunctionDef, ast.AsyncFunctionDef, ast.ClassDef)):
+                    setattr(st, fld, block(blk))
+            for h in getattr(st, "handlers", []) or []:
+                h.body = block(h.body)
+            if isinstance(st, ast.If) and st.orelse and terminates(st.body) and not (len(st.orelse) == 1 and isinstance(st.orelse[0], ast.If)):
+                rest = st.orelse
+                st.orelse = []
+                out.append(st)
+                out.extend(rest)
+                changed += 1
+            else:
+                out.append(st)
+        return out
+
+    for f in [n for n in ast.walk(tree) if isinstance(n, (ast.FunctionDef, ast.AsyncFunctionDef)) and (not only or n.name == only)]:
+        f.body = block(f.body)
+    return changed
+
+
+KINDS = {"rename": rename_locals, "flipif": flip_if, "flipexp": flip_ifexp, "guard": guard_tail, "hoistret": hoist_returns, "constants": name_constants,
+         "unelse": drop_else_after_return}
 
 
 def sh(cmd, cwd=None):
